@@ -5,38 +5,35 @@ from . import core, check
 
 VERIF = core.VERIF
 
-# property -> (decided clauses, declined clauses, technique)
-CLAIMS = {
-    'C03': dict(
-        decided="inplace_stop_source/inplace_stop_callback: (1) lock discipline by lock-held dataflow on all paths — callback list linkage and "
-                "notifyingThreadId_ only under the spin lock, lock released at every exit, callbacks executed with the lock released (re-entrant "
-                "deregistration cannot deadlock); (2) request_stop: first-requester gate dominates every execute(), loser returns true / winner false, "
-                "prevPtr_=nullptr and removedDuringCallback_ armed before execute, callbackCompleted_ published with release after execute unless removed "
-                "re-entrantly, stop flag never cleared; (3) remove_callback: an already-dequeued callback is waited for (acquire load in a loop) unless "
-                "on the notifying thread, which flags removedDuringCallback; (4) registration after stop executes inline exactly once with source_ cleared "
-                "first, destructor deregisters iff still associated; (5) memory orders of the lock word and gate CAS.",
-        declined="linearizability of N registering threads against M requesters as a property of all schedules; fused_stop_source/adapter forwarding beyond "
-                 "the pairing rules shared with C04.",
-        technique="lock-held dataflow + dominance/must-pass path rules + memory-order role table over clang CFGs (libTooling)"),
-    'C12': dict(
-        decided="(AST half) every receiver class that is connected to a child operation (>= 2 of set_value/set_error/set_done; 71 classes) has the generic "
-                "query-forwarding tag_invoke(CPO, const receiver&) overload and its body invokes the CPO on the outer receiver (reached through a "
-                "Receiver-typed field or a getter returning one); classes without one must be in a 20-row exemption table whose reasons are the property's own "
-                "(root receivers, children that outlive the receiver, type-erased wrappers with a declared query set).",
-        declined="the value returned by a forwarded query when an adaptor could substitute a different object of the same type; allocator symmetry of "
-                 "allocate()/spawn (not yet armed).",
-        technique="custom AST/CFG query over all receiver classes (libTooling facts) with a reasoned exemption table"),
-    'C20': dict(
-        decided="(a) assertion purity: no write, atomic RMW/store, protocol event or repository function with side effects is evaluated inside any UNIFEX_ASSERT/assert "
-                "(they vanish under NDEBUG); (b) configuration differential: every function and lambda present in two configurations (debug vs NDEBUG, C++17 vs C++20, "
-                "continuation visitation on/off) has an identical protocol projection (completions, child starts, atomics with orders, stop requests, lock/notify, state "
-                "writes, branch structure) outside assertions; (c) the two arms of every `if constexpr` on a build switch (async-stack support, NDEBUG, visitation) yield "
-                "the same set of protocol-event sequences to function exit; (d) async-stack balance: every ScopedAsyncStackRoot::activateFrame is balanced on all paths "
-                "(RAII destructor, ensureFrameDeactivated, or coroutine resumption) and the root is pushed/popped in its constructor/destructor.",
-        declined="equality of observable traces across builds as a differential execution; async_trace's reported chain; frame push/pop pairing across coroutine suspension "
-                 "points (not a single-function path fact).",
-        technique="cross-configuration AST/CFG differential + assertion-purity lint + path-set comparison of if-constexpr arms (libTooling facts)"),
+# what each property's check does NOT decide (see DESIGN.md section 5)
+DECLINED = {
+    'C01': 'that the elected completion path is also reached under every schedule (liveness); behaviour of user-supplied senders/receivers.',
+    'C02': 'cross-thread destruction orderings beyond the election/typestate rules; destructor contents of user types.',
+    'C03': 'linearizability of N registering threads against M requesters as a property of all schedules.',
+    'C04': 'that running children actually observe the request at run time; promptness of completion after a stop request.',
+    'C05': 'value equality of forwarded results beyond argument identity; when_any "first" under races; numeric results.',
+    'C06': 'which thread a completion runs on (dynamic thread identity); absence of lost wake-ups as a temporal property; fairness of work distribution.',
+    'C07': 'exactness/total order of time_point arithmetic; real-time promptness of cancellation.',
+    'C08': 'the admission-versus-close race as a property of all histories.',
+    'C09': 'value identity of the result across the heap cell; exhaustive exploration of all orderings of the future state machine (a model-checking question).',
+    'C10': 'coroutine frame semantics that belong to the compiler: order of at_coroutine_exit actions, destruction of locals, round-tripping of awaitables.',
+    'C11': 'thread identity at completion; soundness of computed trait formulas beyond "every child considered".',
+    'C12': 'the value returned by a forwarded query when an adaptor could substitute a different object of the same type.',
+    'C13': 'element values and their order (filter polarity, transform results, fold results).',
+    'C14': 'bytes transferred, data integrity, values of short/failed system calls, "run() returns after stop" as liveness.',
+    'C15': 'mutual exclusion and absence of lost wake-ups as properties of all interleavings.',
+    'C16': '"every wait started before set() is resumed" and atomic rendezvous as properties of all histories.',
+    'C17': 'find_if parallel chunk arithmetic over all range lengths (integer reasoning, not a path-shape fact); exactness of results.',
+    'C18': 'observational transparency as a differential property; equality results.',
+    'C19': 'three-party interleavings (completion, stop request, return of start) as such.',
+    'C20': 'equality of observable traces across builds as a differential execution; async_trace output; frame push/pop pairing across coroutine suspension points.',
 }
+TECHNIQUE = {
+    'C03': 'lock-held dataflow + dominance/must-pass path rules + memory-order role table over clang CFGs (libTooling)',
+    'C12': 'custom AST/CFG query over all receiver classes (libTooling facts) with a reasoned exemption table',
+    'C20': 'cross-configuration AST/CFG differential + assertion-purity lint + path-set comparison of if-constexpr arms',
+}
+DEFAULT_TECHNIQUE = 'interprocedural must/may path analysis on inlined clang CFGs of template patterns (libTooling) + memory-order role table'
 
 
 def main():
@@ -46,8 +43,9 @@ def main():
     for p in props:
         pid = p['id']
         rules = [r for r in core.RULES.values() if pid in r['props']]
-        c = CLAIMS.get(pid)
-        if not rules or not c:
+        c = dict(decided=' '.join('(%s) %s.' % (r['id'], r['doc'].split('\n')[0].rstrip('.')) for r in rules), declined=DECLINED[pid],
+                 technique=TECHNIQUE.get(pid, DEFAULT_TECHNIQUE))
+        if not rules or pid not in CLAIMED:
             na.append(dict(property_id=pid, reason=NA.get(pid, 'no static rule for this property is armed in this revision of the machinery (see DESIGN.md section 5 for the planned clauses); nothing is claimed')))
             continue
         checks.append(dict(
@@ -86,6 +84,8 @@ def main():
 
 
 NA = {}
+# properties whose rule set is considered complete enough to claim (others stay not_applicable until then)
+CLAIMED = {'C03', 'C04', 'C12', 'C14', 'C19', 'C20'}
 
 if __name__ == '__main__':
     main()
